@@ -32,6 +32,7 @@ NEG = {  # negative controls: cfg -> invariant that must be violated
     "MC_Persist_neg_pinned.cfg": "CrashSafe",
     "MC_Persist_neg_ackearly.cfg": "AckedNeverLost",
     "MC_Persist_neg_linked.cfg": "CrashSafe",
+    "MC_Persist_neg_excltemp.cfg": "AckedNeverLost",
     "MC_Persist_neg_hygiene.cfg": "Hygiene",  # documents a reachable aftermath outside C20 (see MC_Persist.tla)
 }
 
@@ -156,10 +157,9 @@ def _report(ctx, scripts, viol, drift):
         classes[sig] = classes.get(sig, 0) + 1
         d = v.get("detail", {})
         sc = by_run.get(v.get("run"))
-        ctx.add_violation(sig, {"run": v.get("run"), "update": v.get("u"), "kind": d.get("kind"), "store": d.get("store"),
-                                "crash_point": d.get("class"), "cut_bytes": d.get("cut"), "fails_to_load": d.get("fails"),
-                                "neither_old_nor_new": d.get("neither"), "errors": d.get("errs"),
-                                "recovered": d.get("recovered"), "old": d.get("old"), "new": d.get("new")},
+        what = {"run": v.get("run"), "update": v.get("u")}
+        what.update({k: d[k] for k in d if k not in ("upd", "state")})
+        ctx.add_violation(sig, what,
                           replay={"driver": "vh-persist", "trace_module": "Trace_Persist", "script": sc, "update": v.get("u")})
     for d in drift:
         ctx.add_drift({"run": d.get("run"), "u": d.get("u"), "detail": d.get("detail")})
